@@ -23,11 +23,13 @@
 (*                                                                         *)
 (* decode_ipc is abstracted by what it can say about the bytes that        *)
 (* arrived (dec): an error, or a stream of `kept` record batches.          *)
-(* Dev = 0 is the design the property asks for (a stream that ends early   *)
-(* is an error).  Dev = 1 is the deviation DevShortStream of the unchanged *)
-(* tree (a cut at a message boundary, or inside the next continuation      *)
-(* marker, reads as a clean end of stream).  Mutants are the named         *)
-(* coordinator mistakes the contract has to reject.                        *)
+(* mut = "none" is the design the property asks for (a stream that ends   *)
+(* early is an error).  mut = "short_stream" is the deviation              *)
+(* DevShortStream of the unchanged tree (a cut at a message boundary, or   *)
+(* inside the next continuation marker, reads as a clean end of stream):   *)
+(* it breaks NoPartial, and it satisfies the contract weakened by exactly  *)
+(* that deviation (ContractDev).  The other mutants are the named          *)
+(* coordinator mistakes the contract has to reject (Kill).                 *)
 (***************************************************************************)
 EXTENDS ScatterOps, TLC, Json
 
@@ -36,8 +38,7 @@ CONSTANTS MaxN,        \* cluster sizes 1..MaxN
           Shapes,      \* subset of {"scatter", "gather"}
           MaxFaults,   \* at most this many faulted fragments (remote or local) per query
           Batches,     \* record batches in every shard's payload
-          Mutants,     \* subset of {"none"} \cup MutantNames
-          Dev          \* 0 | 1
+          Mutants      \* subset of {"none", "short_stream"} \cup MutantNames
 
 VARIABLES cfg,     \* [shape, n, self (0: the initiator is not a participant), T, k, mut]
           pc,      \* "run" | "done"
@@ -93,7 +94,7 @@ Arrive(t, i, kind, b, d) ==
   /\ dec' = [dec EXCEPT ![t][i] = d]
   /\ UNCHANGED <<cfg, pc, loc, tres, tgot, blame, result>>
 
-ShortDec == IF Dev = 1 THEN "ok" ELSE "err"
+ShortDec(m) == IF m = "short_stream" THEN "ok" ELSE "err"
 
 ReplyOk(t, i)         == Arrive(t, i, "ok", Batches, "ok")
 TransportError(t, i)  == Arrive(t, i, "transport", 0, "na")
@@ -102,8 +103,8 @@ DigestMismatch(t, i)  == Arrive(t, i, "digest", 0, "na")
 CutInHead(t, i)       == Arrive(t, i, "trunc_hdr", 0, "na")
 CutAtTerminator(t, i) == Arrive(t, i, "trunc_term", 0, "err")
 CutInMessage(t, i)    == \E b \in 0..(Batches - 1) : Arrive(t, i, "trunc_inmsg", b, "err")
-CutInMarker(t, i)     == \E b \in 0..(Batches - 1) : Arrive(t, i, "trunc_marker", b, ShortDec)
-CutAtBoundary(t, i)   == \E b \in 0..(Batches - 1) : Arrive(t, i, "trunc_boundary", b, ShortDec)
+CutInMarker(t, i)     == \E b \in 0..(Batches - 1) : Arrive(t, i, "trunc_marker", b, ShortDec(cfg.mut))
+CutAtBoundary(t, i)   == \E b \in 0..(Batches - 1) : Arrive(t, i, "trunc_boundary", b, ShortDec(cfg.mut))
 CutInEos(t, i)        == \E d \in {"ok", "err"} : Arrive(t, i, "trunc_eos", Batches, d)
 Corrupt(t, i)         == Arrive(t, i, "corrupt", 0, "err")
 
@@ -187,9 +188,13 @@ TypeOK ==
 NoPartial == (Ideal /\ result = "ok") => /\ Outcome = "full"
                                          /\ Kinds \subseteq Harmless
                                          /\ "err" \notin Locals
+\* the property on the unchanged tree's decoder (violated: Scatter_asbuilt_cex.cfg shows the shortest history)
+NoPartial2 == (cfg.mut = "short_stream" /\ result = "ok") => Outcome = "full"
 AnyFault == (Ideal /\ pc = "done" /\ MustErr(Kinds, Locals)) => result = "err"
 \* the same through the shared contract operator (this is what judges recorded executions)
-Contract == (Ideal /\ pc = "done") => Outcome \in Allowed(Kinds, Locals, Dev)
+Contract == (Ideal /\ pc = "done") => Outcome \in Allowed(Kinds, Locals, 0)
+\* the unchanged tree's decoder: explained by the listed deviation, and by nothing less
+ContractDev == (cfg.mut = "short_stream" /\ pc = "done") => Outcome \in Allowed(Kinds, Locals, 1)
 \* not vacuous: without any fault the query answers, completely
 FaultFreeAnswers == (Ideal /\ pc = "done" /\ Kinds \subseteq {"ok"} /\ "err" \notin Locals) => (result = "ok" /\ Outcome = "full")
 \* join_all: nothing is decided while a fragment is still in flight
